@@ -270,7 +270,7 @@ def handleJoinF (withMat : Bool) (ws : List String) : Option String := do
     let parts ← parseParts (← k.toNat?) 0 rest
     some (match joinedCast parts ⟨V3.zero, V3.zero⟩ with
       | none => "miss"
-      | some h => if withMat then s!"hit {hexOfFloat h.scale} {h.mat}" else s!"hit {hexOfFloat h.scale}")
+      | some h => if withMat then s!"hit {hexOfFloat h.scale} {h.mat}" else s!"hit {hexOfFloat (h.scale + 0)}")
   | _ => none
 
 /-! ### Whole images of a closed uniform emitter -/
@@ -312,6 +312,8 @@ def handleAll (ws : List String) : Option String :=
   | "bvhf" :: rest => handleJoinF false rest
   | "xprim" :: _how :: _kind :: rest => some (" ".intercalate rest)
   | "img" :: rest => handleImg rest
+  -- `dircam fov dir min max`: the specification (`directional_camera_contains`) is a constant
+  | ["dircam", _, _, _, _, _, _, _, _, _, _] => some "contained"
   | _ => none
 
 end M3d.Drv.C20
